@@ -25,7 +25,7 @@ func VerifyAndroidKeyAttestationStatement(
 	}
 	certificate := certificates[0]
 
-	authenticatorData, err := attestationObject.UnmarshalAuthenticatorData()
+	authenticatorData, err := attestationObject.unmarshalAttestedAuthenticatorData()
 	if err != nil {
 		return nil, fmt.Errorf("%w: %s", ErrInvalidAttestationStatement, err)
 	}
